@@ -75,7 +75,7 @@ func explore(args []string) {
 	cfg.Fixed = parseKV(*fixed)
 	for _, sp := range props {
 		for _, h := range sp.Harnesses {
-			if h.Func == *fn && h.Overrides != nil {
+			if h.Func == *fn && cfg.Overrides == nil {
 				cfg.Overrides = h.Overrides
 				if cfg.Opts.MaxSteps == 0 {
 					cfg.Opts = h.Opts
